@@ -477,12 +477,23 @@ def token_codec(ctx, rr):
         return u
 
     def binops(u):
+        from ..dataflow import resolve_locals as _rlb
+        from ..consts import UNKNOWN as _UNK
         out = []
+
+        def fold(e):
+            try:
+                v = CE.ev(u.module, _rlb(P, u, e))
+            except Exception:
+                return None
+            return v if isinstance(v, int) and not isinstance(v, bool) and v is not _UNK else None
         for n in ast.walk(u.node):
             if isinstance(n, ast.BinOp):
-                for side in (n.right, n.left):
-                    v = side.value if isinstance(side, ast.Constant) else (CE.get(u.module, side.id) if isinstance(side, ast.Name) and side.id.isupper() else None)
-                    if isinstance(v, int) and not isinstance(v, bool) and (side is n.right or isinstance(n.op, ast.Mult)):
+                lv_, rv_ = fold(n.left), fold(n.right)
+                if lv_ is not None and rv_ is not None:
+                    continue        # a constant expression (`1 << bits` with bits known), not an operation on the value
+                for side, v in ((n.right, rv_), (n.left, lv_)):
+                    if v is not None and (side is n.right or isinstance(n.op, ast.Mult)):
                         out.append((type(n.op).__name__, v))
                         break
             if isinstance(n, ast.AugAssign) and isinstance(n.value, ast.Constant) and isinstance(n.value.value, int):
